@@ -18,14 +18,14 @@ if git apply --numstat $D/patch.diff | awk '{print $3}' | grep -qE '(^|/)test/|/
 demo() { # runs the demonstration; the deliverable provides demo/run.sh (exit 0 = demonstration passes) or demo/demo.diff + demo/SUITE
   if [ -x $D/demo/run.sh ]; then (cd $WT && $D/demo/run.sh) >> $LOG 2>&1; return $?; fi
   if [ -f $D/demo/demo.diff ]; then
-    git apply $D/demo/demo.diff >> $LOG 2>&1 || return 99
-    ninja -C build -j$J test_bitcoin >> $LOG 2>&1 || { git apply -R $D/demo/demo.diff; return 98; }
+    git apply $D/demo/demo.diff >> $LOG 2>&1 || return 243
+    ninja -C build -j$J test_bitcoin >> $LOG 2>&1 || { git apply -R $D/demo/demo.diff; return 242; }
     suite=$(cat $D/demo/SUITE 2>/dev/null)
     ./build/bin/test_bitcoin --run_test="$suite" >> $LOG 2>&1; rc=$?
     git apply -R $D/demo/demo.diff >> $LOG 2>&1
     return $rc
   fi
-  return 97
+  return 241
 }
 echo "== demo without change" >> $LOG
 demo; rc_clean=$?
@@ -39,5 +39,5 @@ ctest --test-dir build -j$J --timeout 1200 > /tmp/seed_${ID}_ctest.log 2>&1; rc_
 tail -5 /tmp/seed_${ID}_ctest.log >> $LOG
 git checkout -q -- . ; git clean -qfd -e build >> $LOG 2>&1
 verdict=REJECT
-[ $rc_clean = 0 ] && [ $rc_changed != 0 ] && [ $rc_changed -lt 97 ] && [ $rc_build = 0 ] && [ $rc_ctest = 0 ] && verdict=KEEP
+[ $rc_clean = 0 ] && [ $rc_changed != 0 ] && [ $rc_changed -lt 241 ] && [ $rc_build = 0 ] && [ $rc_ctest = 0 ] && verdict=KEEP
 echo "$ID $verdict demo_clean=$rc_clean demo_changed=$rc_changed build=$rc_build ctest=$rc_ctest ($(grep -E 'tests passed|tests failed' /tmp/seed_${ID}_ctest.log | head -1))"
